@@ -144,6 +144,10 @@ pub trait Sut {
     fn sessionable(&self, _op: &Op) -> bool {
         false
     }
+    /// checks that need no state (evaluated once, before the exploration): (finding, replay lines)
+    fn preflight(&self) -> Vec<(Finding, Vec<String>)> {
+        vec![]
+    }
     /// is a panic the documented behaviour of `op` on `pre` (e.g. a buffer shorter than the prefix)?
     fn panic_expected(&self, _pre: &[u8], _op: &Op) -> bool {
         false
@@ -292,6 +296,7 @@ fn history_of(parents: &[(usize, String)], mut id: usize) -> Vec<String> {
 pub fn bfs(sut: &dyn Sut, out: &mut dyn Write, limits: &Limits) -> Stats {
     let mut st = Stats::default();
     st.exhaustive = true;
+    st.findings.extend(sut.preflight());
     writeln!(out, "{}", sut.cfg_line()).unwrap();
     let mut ids: HashMap<Vec<u8>, usize> = HashMap::new();
     let mut states: Vec<Vec<u8>> = vec![];
@@ -384,6 +389,7 @@ pub fn random(
     limits: &Limits,
 ) -> Stats {
     let mut st = Stats::default();
+    st.findings.extend(sut.preflight());
     let mut rng = Rng::new(seed);
     writeln!(out, "{}", sut.cfg_line()).unwrap();
     let mut sid = 0usize;
